@@ -114,26 +114,32 @@ Inductive op :=
 | SetPsk (e : option (bool * bytes * N))     (* SetPskExtension(nil | a UtlsPreSharedKeyExtension, initialized or not) *)
 | SetState (e : option (bytes * N))          (* SetSessionState(nil | session) *)
 | Build                                      (* BuildHandshakeState *)
-| Handshake.
+| Handshake
+| ReuseTicket (e : bytes * N)                (* fill the ISessionTicketExtension found in uconn.Extensions (Ticket, Session, Initialized)
+                                                and pass that very object to SetSessionTicketExtension *)
+| ReusePsk (e : bytes * N)                   (* InitializeByUtls on the UtlsPreSharedKeyExtension found in uconn.Extensions, then SetPskExtension(it) *)
+| EditHello.                                 (* a documented edit of the (built) ClientHello: SetClientRandom, SetSNI, session id, ... *)
 
 (* the finite part of a call *)
 Inductive argk := ANil | AInit | AUninit.
-Inductive okind := KSetCache | KBuildNoSess | KSetTicket (a : argk) | KSetPsk (a : argk) | KSetState | KBuild | KHandshake.
+Inductive okind := KSetCache | KBuildNoSess | KSetTicket (a : argk) | KSetPsk (a : argk) | KSetState | KBuild | KHandshake
+                 | KReuseTicket | KReusePsk | KEdit.
 Definition argk_of (e : option (bool * bytes * N)) : argk :=
   match e with None => ANil | Some (true, _, _) => AInit | Some (false, _, _) => AUninit end.
 Definition kind (o : op) : okind :=
   match o with
   | SetCache => KSetCache | BuildNoSess => KBuildNoSess | Build => KBuild | Handshake => KHandshake
   | SetTicket e => KSetTicket (argk_of e) | SetPsk e => KSetPsk (argk_of e) | SetState _ => KSetState
+  | ReuseTicket _ => KReuseTicket | ReusePsk _ => KReusePsk | EditHello => KEdit
   end.
 (* the call hands over an initialized session *)
 Definition injecting (k : okind) : bool :=
-  match k with KSetTicket AInit | KSetPsk AInit | KSetState => true | _ => false end.
+  match k with KSetTicket AInit | KSetPsk AInit | KSetState | KReuseTicket | KReusePsk => true | _ => false end.
 (* the datum a setter call carries *)
 Definition arg_datum (o : op) : datum :=
   match o with
   | SetTicket (Some (_, d, se)) | SetPsk (Some (_, d, se)) => (d, se)
-  | SetState (Some (d, se)) => (d, se)
+  | SetState (Some (d, se)) | ReuseTicket (d, se) | ReusePsk (d, se) => (d, se)
   | _ => pristine          (* SetSessionState(nil): Initialized ticket extension with empty ticket and nil session *)
   end.
 
@@ -154,25 +160,27 @@ Record cstate := mkC {
   keys_match : bool;
   done : bool;
   herr : bool;
-  tsup : bool
+  tsup : bool;
+  binder_fresh : bool
 }.
-Definition set_cache (v : bool) (s : cstate) : cstate := mkC (v) (status s) (applied s) (cs s) (locked s) (tracker s) (calling s) (own_t s) (own_p s) (x_t s) (x_p s) (share_some s) (keys_some s) (keys_match s) (done s) (herr s) (tsup s).
-Definition set_status (v : bstatus) (s : cstate) : cstate := mkC (cache s) (v) (applied s) (cs s) (locked s) (tracker s) (calling s) (own_t s) (own_p s) (x_t s) (x_p s) (share_some s) (keys_some s) (keys_match s) (done s) (herr s) (tsup s).
-Definition set_applied (v : bool) (s : cstate) : cstate := mkC (cache s) (status s) (v) (cs s) (locked s) (tracker s) (calling s) (own_t s) (own_p s) (x_t s) (x_p s) (share_some s) (keys_some s) (keys_match s) (done s) (herr s) (tsup s).
-Definition set_cs (v : cst) (s : cstate) : cstate := mkC (cache s) (status s) (applied s) (v) (locked s) (tracker s) (calling s) (own_t s) (own_p s) (x_t s) (x_p s) (share_some s) (keys_some s) (keys_match s) (done s) (herr s) (tsup s).
-Definition set_locked (v : bool) (s : cstate) : cstate := mkC (cache s) (status s) (applied s) (cs s) (v) (tracker s) (calling s) (own_t s) (own_p s) (x_t s) (x_p s) (share_some s) (keys_some s) (keys_match s) (done s) (herr s) (tsup s).
-Definition set_tracker (v : trk) (s : cstate) : cstate := mkC (cache s) (status s) (applied s) (cs s) (locked s) (v) (calling s) (own_t s) (own_p s) (x_t s) (x_p s) (share_some s) (keys_some s) (keys_match s) (done s) (herr s) (tsup s).
-Definition set_calling (v : bool) (s : cstate) : cstate := mkC (cache s) (status s) (applied s) (cs s) (locked s) (tracker s) (v) (own_t s) (own_p s) (x_t s) (x_p s) (share_some s) (keys_some s) (keys_match s) (done s) (herr s) (tsup s).
-Definition set_own_t (v : oshape) (s : cstate) : cstate := mkC (cache s) (status s) (applied s) (cs s) (locked s) (tracker s) (calling s) (v) (own_p s) (x_t s) (x_p s) (share_some s) (keys_some s) (keys_match s) (done s) (herr s) (tsup s).
-Definition set_own_p (v : oshape) (s : cstate) : cstate := mkC (cache s) (status s) (applied s) (cs s) (locked s) (tracker s) (calling s) (own_t s) (v) (x_t s) (x_p s) (share_some s) (keys_some s) (keys_match s) (done s) (herr s) (tsup s).
-Definition set_x_t (v : xts) (s : cstate) : cstate := mkC (cache s) (status s) (applied s) (cs s) (locked s) (tracker s) (calling s) (own_t s) (own_p s) (v) (x_p s) (share_some s) (keys_some s) (keys_match s) (done s) (herr s) (tsup s).
-Definition set_x_p (v : xps) (s : cstate) : cstate := mkC (cache s) (status s) (applied s) (cs s) (locked s) (tracker s) (calling s) (own_t s) (own_p s) (x_t s) (v) (share_some s) (keys_some s) (keys_match s) (done s) (herr s) (tsup s).
-Definition set_share_some (v : bool) (s : cstate) : cstate := mkC (cache s) (status s) (applied s) (cs s) (locked s) (tracker s) (calling s) (own_t s) (own_p s) (x_t s) (x_p s) (v) (keys_some s) (keys_match s) (done s) (herr s) (tsup s).
-Definition set_keys_some (v : bool) (s : cstate) : cstate := mkC (cache s) (status s) (applied s) (cs s) (locked s) (tracker s) (calling s) (own_t s) (own_p s) (x_t s) (x_p s) (share_some s) (v) (keys_match s) (done s) (herr s) (tsup s).
-Definition set_keys_match (v : bool) (s : cstate) : cstate := mkC (cache s) (status s) (applied s) (cs s) (locked s) (tracker s) (calling s) (own_t s) (own_p s) (x_t s) (x_p s) (share_some s) (keys_some s) (v) (done s) (herr s) (tsup s).
-Definition set_done (v : bool) (s : cstate) : cstate := mkC (cache s) (status s) (applied s) (cs s) (locked s) (tracker s) (calling s) (own_t s) (own_p s) (x_t s) (x_p s) (share_some s) (keys_some s) (keys_match s) (v) (herr s) (tsup s).
-Definition set_herr (v : bool) (s : cstate) : cstate := mkC (cache s) (status s) (applied s) (cs s) (locked s) (tracker s) (calling s) (own_t s) (own_p s) (x_t s) (x_p s) (share_some s) (keys_some s) (keys_match s) (done s) (v) (tsup s).
-Definition set_tsup (v : bool) (s : cstate) : cstate := mkC (cache s) (status s) (applied s) (cs s) (locked s) (tracker s) (calling s) (own_t s) (own_p s) (x_t s) (x_p s) (share_some s) (keys_some s) (keys_match s) (done s) (herr s) (v).
+Definition set_cache (v : bool) (s : cstate) : cstate := mkC (v) (status s) (applied s) (cs s) (locked s) (tracker s) (calling s) (own_t s) (own_p s) (x_t s) (x_p s) (share_some s) (keys_some s) (keys_match s) (done s) (herr s) (tsup s) (binder_fresh s).
+Definition set_status (v : bstatus) (s : cstate) : cstate := mkC (cache s) (v) (applied s) (cs s) (locked s) (tracker s) (calling s) (own_t s) (own_p s) (x_t s) (x_p s) (share_some s) (keys_some s) (keys_match s) (done s) (herr s) (tsup s) (binder_fresh s).
+Definition set_applied (v : bool) (s : cstate) : cstate := mkC (cache s) (status s) (v) (cs s) (locked s) (tracker s) (calling s) (own_t s) (own_p s) (x_t s) (x_p s) (share_some s) (keys_some s) (keys_match s) (done s) (herr s) (tsup s) (binder_fresh s).
+Definition set_cs (v : cst) (s : cstate) : cstate := mkC (cache s) (status s) (applied s) (v) (locked s) (tracker s) (calling s) (own_t s) (own_p s) (x_t s) (x_p s) (share_some s) (keys_some s) (keys_match s) (done s) (herr s) (tsup s) (binder_fresh s).
+Definition set_locked (v : bool) (s : cstate) : cstate := mkC (cache s) (status s) (applied s) (cs s) (v) (tracker s) (calling s) (own_t s) (own_p s) (x_t s) (x_p s) (share_some s) (keys_some s) (keys_match s) (done s) (herr s) (tsup s) (binder_fresh s).
+Definition set_tracker (v : trk) (s : cstate) : cstate := mkC (cache s) (status s) (applied s) (cs s) (locked s) (v) (calling s) (own_t s) (own_p s) (x_t s) (x_p s) (share_some s) (keys_some s) (keys_match s) (done s) (herr s) (tsup s) (binder_fresh s).
+Definition set_calling (v : bool) (s : cstate) : cstate := mkC (cache s) (status s) (applied s) (cs s) (locked s) (tracker s) (v) (own_t s) (own_p s) (x_t s) (x_p s) (share_some s) (keys_some s) (keys_match s) (done s) (herr s) (tsup s) (binder_fresh s).
+Definition set_own_t (v : oshape) (s : cstate) : cstate := mkC (cache s) (status s) (applied s) (cs s) (locked s) (tracker s) (calling s) (v) (own_p s) (x_t s) (x_p s) (share_some s) (keys_some s) (keys_match s) (done s) (herr s) (tsup s) (binder_fresh s).
+Definition set_own_p (v : oshape) (s : cstate) : cstate := mkC (cache s) (status s) (applied s) (cs s) (locked s) (tracker s) (calling s) (own_t s) (v) (x_t s) (x_p s) (share_some s) (keys_some s) (keys_match s) (done s) (herr s) (tsup s) (binder_fresh s).
+Definition set_x_t (v : xts) (s : cstate) : cstate := mkC (cache s) (status s) (applied s) (cs s) (locked s) (tracker s) (calling s) (own_t s) (own_p s) (v) (x_p s) (share_some s) (keys_some s) (keys_match s) (done s) (herr s) (tsup s) (binder_fresh s).
+Definition set_x_p (v : xps) (s : cstate) : cstate := mkC (cache s) (status s) (applied s) (cs s) (locked s) (tracker s) (calling s) (own_t s) (own_p s) (x_t s) (v) (share_some s) (keys_some s) (keys_match s) (done s) (herr s) (tsup s) (binder_fresh s).
+Definition set_share_some (v : bool) (s : cstate) : cstate := mkC (cache s) (status s) (applied s) (cs s) (locked s) (tracker s) (calling s) (own_t s) (own_p s) (x_t s) (x_p s) (v) (keys_some s) (keys_match s) (done s) (herr s) (tsup s) (binder_fresh s).
+Definition set_keys_some (v : bool) (s : cstate) : cstate := mkC (cache s) (status s) (applied s) (cs s) (locked s) (tracker s) (calling s) (own_t s) (own_p s) (x_t s) (x_p s) (share_some s) (v) (keys_match s) (done s) (herr s) (tsup s) (binder_fresh s).
+Definition set_keys_match (v : bool) (s : cstate) : cstate := mkC (cache s) (status s) (applied s) (cs s) (locked s) (tracker s) (calling s) (own_t s) (own_p s) (x_t s) (x_p s) (share_some s) (keys_some s) (v) (done s) (herr s) (tsup s) (binder_fresh s).
+Definition set_done (v : bool) (s : cstate) : cstate := mkC (cache s) (status s) (applied s) (cs s) (locked s) (tracker s) (calling s) (own_t s) (own_p s) (x_t s) (x_p s) (share_some s) (keys_some s) (keys_match s) (v) (herr s) (tsup s) (binder_fresh s).
+Definition set_herr (v : bool) (s : cstate) : cstate := mkC (cache s) (status s) (applied s) (cs s) (locked s) (tracker s) (calling s) (own_t s) (own_p s) (x_t s) (x_p s) (share_some s) (keys_some s) (keys_match s) (done s) (v) (tsup s) (binder_fresh s).
+Definition set_tsup (v : bool) (s : cstate) : cstate := mkC (cache s) (status s) (applied s) (cs s) (locked s) (tracker s) (calling s) (own_t s) (own_p s) (x_t s) (x_p s) (share_some s) (keys_some s) (keys_match s) (done s) (herr s) (v) (binder_fresh s).
+Definition set_binder_fresh (v : bool) (s : cstate) : cstate := mkC (cache s) (status s) (applied s) (cs s) (locked s) (tracker s) (calling s) (own_t s) (own_p s) (x_t s) (x_p s) (share_some s) (keys_some s) (keys_match s) (done s) (herr s) (tsup s) (v).
 
 Record gstate := mkG {
   psk_same : bool;
@@ -228,6 +236,8 @@ Definition st_d (s : st) : dstate := snd s.
 (* ---- movements of data: the only way a program touches the flags and the data ---- *)
 Inductive dact :=
 | DArgT | DArgP          (* the controller takes the caller's extension (overrideExtension :235) *)
+| DReuseT | DReuseP      (* the caller writes a session into the extension object found in uconn.Extensions *)
+| DTakeT | DTakeP        (* the controller takes that object of the list (overrideExtension :235 with it) *)
 | DAdoptT | DAdoptP      (* the controller takes the extension found in uconn.Extensions (syncSessionExts :278,288) *)
 | DPreset                (* uconn.Extensions := copy of the spec's list (u_parrots.go:2839-2840) *)
 | DInitT | DInitP        (* InitializeByUtls with the session loaded from the cache (:158,:182) *)
@@ -257,6 +267,12 @@ Definition gapply (a : dact) (k : okind) (c : cstate) (g : gstate) : gstate :=
   | DArgP => set_psk_same false
                (set_g_own_p (if injecting k then GInj else GOther)
                   (set_g_slot_p (if p_own (x_p c) then g_own_p g else g_slot_p g) g))
+  | DReuseT => let x := if injecting k then GInj else GOther in
+               if first_own (x_t c) then set_g_own_t x g else set_g_slot_t x g
+  | DReuseP => let x := if injecting k then GInj else GOther in
+               set_psk_same false (if p_own (x_p c) then set_g_own_p x g else set_g_slot_p x g)
+  | DTakeT => if first_own (x_t c) then g else set_g_own_t (g_slot_t g) g
+  | DTakeP => set_psk_same false (if p_own (x_p c) then g else set_g_own_p (g_slot_p g) g)
   | DAdoptT => match own_t c, first_slot (x_t c) with
                | ONone, Some (SObj _ _) => set_g_own_t (g_slot_t g) g
                | _, _ => g
@@ -303,6 +319,10 @@ Definition dapply (w : world) (o : op) (a : dact) (c : cstate) (d : dstate) : ds
   match a with
   | DArgT => set_d_own_t (arg_datum o) (set_d_slot_t (if first_own (x_t c) then d_own_t d else d_slot_t d) d)
   | DArgP => set_d_own_p (arg_datum o) (set_d_slot_p (if p_own (x_p c) then d_own_p d else d_slot_p d) d)
+  | DReuseT => if first_own (x_t c) then set_d_own_t (arg_datum o) d else set_d_slot_t (arg_datum o) d
+  | DReuseP => if p_own (x_p c) then set_d_own_p (arg_datum o) d else set_d_slot_p (arg_datum o) d
+  | DTakeT => if first_own (x_t c) then d else set_d_own_t (d_slot_t d) d
+  | DTakeP => if p_own (x_p c) then d else set_d_own_p (d_slot_p d) d
   | DAdoptT => match own_t c, first_slot (x_t c) with
                | ONone, Some (SObj _ _) => set_d_own_t (d_slot_t d) d
                | _, _ => d
@@ -614,16 +634,19 @@ Definition u_load_session (cw : cworld) : prog unit :=
    session and OmitEmptyPsk is unset (u_pre_shared_key.go:257-262) *)
 Definition marshal (cw : cworld) : prog unit :=
   let! c := get in
-  match x_p c with
-  | XPnone => act DMarshal
-  | XPsome sl => if slot_init (own_p c) sl || cw_omit cw then act DMarshal else Fail E_EMPTY_PSK
-  end.
+  (match x_p c with
+   | XPnone => act DMarshal
+   | XPsome sl => if slot_init (own_p c) sl || cw_omit cw then act DMarshal else Fail E_EMPTY_PSK
+   end) ;;;
+  put (set_binder_fresh false).   (* Raw is new: the binders in it are placeholders / those of an earlier marshaling *)
 
 (* uApplyPatch, u_conn.go:194-201 *)
 Definition u_apply_patch : prog unit :=
   let! c := get in
   when (should_update_binders c)
-    (uassert (should_update_binders c) P_BINDERS ;;; set_psk_to_uconn).
+    (uassert (should_update_binders c) P_BINDERS ;;;
+     put (set_binder_fresh true) ;;;          (* PatchBuiltHello: binders recomputed over the hello just marshaled *)
+     set_psk_to_uconn).
 
 (* buildHandshakeState, u_conn.go:108-163 (with the fix: the preset is applied once) *)
 Definition build (cw : cworld) (load : bool) : prog unit :=
@@ -648,6 +671,16 @@ Definition build (cw : cworld) (load : bool) : prog unit :=
 Definition keys_eq (c : cstate) : bool :=
   if share_some c then keys_some c && keys_match c else negb (keys_some c).
 
+(* the session_ticket extension in the list is initialized (it carries a ticket the server accepts) but the session
+   was never set to HandshakeState: only possible when a setter call was refused after the caller had filled the object *)
+Definition unarmed_ticket (c : cstate) : bool :=
+  match first_slot (x_t c) with Some sl => slot_init (own_t c) sl | None => false end &&
+  negb (cst_eqb (cs c) TicketAllSet).
+
+Definition unarmed_psk (c : cstate) : bool :=
+  match x_p c with XPsome sl => slot_init (own_p c) sl | XPnone => false end &&
+  negb (cst_eqb (cs c) PskAllSet).
+
 (* UConn.handshakeContext u_conn.go:317-423 and clientHandshake u_handshake_client.go:383-440 *)
 Definition handshake (cw : cworld) : prog unit :=
   let! c := get in
@@ -659,9 +692,58 @@ Definition handshake (cw : cworld) : prog unit :=
     (if locked c then act DWireRaw                        (* session taken from HandshakeState: 431-440 *)
      else (let! h := load_session cw in act DWireGo)) ;;;
     let! c := get in
-    if cw_srv13 cw && (cw_tls13 cw || cw_golang cw) && negb (keys_eq c)
-    then put (set_herr true) ;;; Fail E_HANDSHAKE         (* no private key for the share the server used *)
+    if cw_srv13 cw && (((cw_tls13 cw || cw_golang cw) && negb (keys_eq c))       (* no private key for the share the server used *)
+                       || (cst_eqb (cs c) PskAllSet && negb (binder_fresh c)))  (* the server rejects a stale binder *)
+       || (cw_srv13 cw && unarmed_psk c)              (* identity with placeholder binders: a TLS 1.3 server rejects it *)
+       || (negb (cw_srv13 cw) && unarmed_ticket c)    (* a TLS 1.2 server resumes the initialized ticket it is shown; a client
+                                                        that did not arm that session (HandshakeState.Session) fails *)
+    then put (set_herr true) ;;; Fail E_HANDSHAKE
     else put (set_done true).
+
+(* "Reuse": BuildHandshakeStateWithoutSession exists to inspect the hello before setting the session; here the caller
+   fills the session-ticket / pre_shared_key extension object it found in uconn.Extensions and hands that same object
+   to the setter. The object is written before the setter runs its checks. *)
+Definition init_slot (s : sshape) : sshape := match s with SOwn => SOwn | SObj u _ => SObj u true end.
+Definition init_own (o : oshape) : oshape := match o with ONone => ONone | OSome u _ => OSome u true end.
+Definition reuse_ticket (cw : cworld) (fallback : prog unit) : prog unit :=
+  let! c := get in
+  match first_slot (x_t c) with
+  | None => fallback                                   (* no such object in the list: a fresh one is used instead *)
+  | Some sl =>
+      act DReuseT ;;;
+      put (fun c => if first_own (x_t c) then set_own_t (init_own (own_t c)) c
+                    else set_x_t (match x_t c with X0 => X0 | X1 s => X1 (init_slot s) | Xmany s => Xmany (init_slot s) end) c) ;;;
+      let! c := get in
+      if sessions_off cw c then Fail E_DISABLED
+      else
+        uassert (negb (locked c)) P_LOCKED ;;;
+        uassert (cst_eqb (cs c) NoSession) P_STATE ;;;
+        act DTakeT ;;;
+        put (fun c => set_x_t (own_first (x_t c))
+                        (match first_slot (x_t c) with Some (SObj u i) => set_own_t (OSome u i) c | _ => c end)) ;;;
+        let! c := get in
+        when (o_is_init (own_t c)) (put (set_cs TicketInit))
+  end.
+Definition reuse_psk (cw : cworld) (fallback : prog unit) : prog unit :=
+  let! c := get in
+  match x_p c with
+  | XPnone => fallback
+  | XPsome sl =>
+      act DReuseP ;;;
+      put (fun c => if p_own (x_p c) then set_own_p (init_own (own_p c)) c
+                    else set_x_p (match x_p c with XPnone => XPnone | XPsome s => XPsome (init_slot s) end) c) ;;;
+      let! c := get in
+      if sessions_off cw c then Fail E_DISABLED
+      else
+        put (set_tsup true) ;;;
+        uassert (negb (locked c)) P_LOCKED ;;;
+        uassert (cst_eqb (cs c) NoSession) P_STATE ;;;
+        act DTakeP ;;;
+        put (fun c => set_x_p (XPsome SOwn)
+                        (match x_p c with XPsome (SObj u i) => set_own_p (OSome u i) c | _ => c end)) ;;;
+        let! c := get in
+        when (o_is_init (own_p c)) (put (set_cs PskInit))
+  end.
 
 Definition setter (cw : cworld) (a : argk) (ov : bool -> prog unit) : prog unit :=
   let! c := get in
@@ -677,6 +759,9 @@ Definition stepk (cw : cworld) (k : okind) : prog unit :=
   | KSetTicket a => setter cw a override_ticket                             (* u_conn.go:225-233 *)
   | KSetState => setter cw AInit override_ticket                            (* u_conn.go:214-221 *)
   | KSetPsk a => setter cw a (fun i => put (set_tsup true) ;;; override_psk i)   (* u_conn.go:236-246; :244 Hello.TicketSupported = true *)
+  | KReuseTicket => reuse_ticket cw (setter cw AInit override_ticket)
+  | KReusePsk => reuse_psk cw (setter cw AInit (fun i => put (set_tsup true) ;;; override_psk i))
+  | KEdit => put (set_binder_fresh false)                                   (* the hello bytes change: binders computed before are stale *)
   end.
 
 Definition cstep (cw : cworld) (k : okind) (c : cstate) (g : gstate) : (cstate * gstate) * res unit :=
@@ -685,7 +770,7 @@ Definition step (w : world) (o : op) (s : st) : st * res unit :=
   runF w o (stepk (cworld_of w) (kind o)) (st_c s) (st_g s) (st_d s).
 
 Definition cinit (cache0 : bool) : cstate :=
-  mkC cache0 NotBuilt false NoSession false NeverCalled false ONone ONone X0 XPnone false false false false false false.
+  mkC cache0 NotBuilt false NoSession false NeverCalled false ONone ONone X0 XPnone false false false false false false false.
 Definition ginit : gstate := mkG false GOther GOther GOther GOther GOther GOther GOther GOther GOther.
 Definition dinit : dstate := mkD pristine pristine pristine pristine 0 [] None 0 None None.
 Definition init (w : world) : st := (cinit (w_cache0 w), ginit, dinit).
@@ -714,12 +799,12 @@ Definition linit (cache0 : bool) : lst := mkL cache0 false false false INone.
 Definition setter_arg (k : okind) : option (option bool) :=   (* None: not a setter; Some None: nil argument; Some (Some i): Initialized = i *)
   match k with
   | KSetTicket ANil | KSetPsk ANil => Some None
-  | KSetTicket AInit | KSetPsk AInit | KSetState => Some (Some true)
+  | KSetTicket AInit | KSetPsk AInit | KSetState | KReuseTicket | KReusePsk => Some (Some true)
   | KSetTicket AUninit | KSetPsk AUninit => Some (Some false)
   | _ => None
   end.
 Definition inj_kind (k : okind) : injk :=
-  match k with KSetTicket AInit | KSetState => ITicket | KSetPsk AInit => IPsk | _ => INone end.
+  match k with KSetTicket AInit | KSetState | KReuseTicket => ITicket | KSetPsk AInit | KReusePsk => IPsk | _ => INone end.
 
 (* a call the documentation forbids: a setter without session support, a (non-nil) session extension after
    BuildHandshakeState/Handshake, a second session *)
@@ -735,7 +820,7 @@ Definition forbiddenk (cw : cworld) (l : lst) (k : okind) : bool :=
 Definition legal_stepk (cw : cworld) (l : lst) (k : okind) : option lst :=
   match k with
   | KSetCache => if l_hs l then None else Some (mkL true (l_set l) (l_built l) (l_hs l) (l_inj l))
-  | KBuildNoSess => if l_hs l then None else Some l
+  | KBuildNoSess | KEdit => if l_hs l then None else Some l
   | KBuild => if l_hs l then None else Some (mkL (l_cache l) (l_set l) true (l_hs l) (l_inj l))
   | KHandshake => Some (mkL (l_cache l) (l_set l) true true (l_inj l))
   | _ =>
@@ -772,6 +857,8 @@ Definition inj_of (o : op) : option inj :=
   | SetState None => Some (InjTicket [] 0)
   | SetState (Some (tk, se)) => Some (InjTicket tk se)
   | SetPsk (Some (true, lb, se)) => Some (InjPsk lb se)
+  | ReuseTicket (tk, se) => Some (InjTicket tk se)
+  | ReusePsk (lb, se) => Some (InjPsk lb se)
   | _ => None
   end.
 Fixpoint injected (ops : list op) : option inj :=
